@@ -7,6 +7,13 @@ TB_COMMON = [
 ]
 
 HARNESSES = {
+    "st": {
+        "module": "grpcgcp", "pkg": ".", "test": "TestVerifStream",
+        "files": ["harness/grpcgcp/zz_verif_st_test.go", "harness/grpcgcp/zz_verif_pool_test.go"], "rewrite": "vclock",
+        "corpus_glob": "*.ops", "corpus_dirs": [],
+        "episode_start": r"^st new",
+        "tiers": {"quick": {"episodes": 400}, "thorough": {"episodes": 6000, "seeds": 4}},
+    },
     "cfg": {
         "module": "grpcgcp", "pkg": ".", "test": "TestVerifConfig",
         "files": ["harness/grpcgcp/zz_verif_cfg_test.go", "harness/grpcgcp/zz_verif_pool_test.go"], "rewrite": "vclock",
@@ -104,7 +111,19 @@ CFG_TB = TB_COMMON + [
     "mutation / aliasing of the caller's object is observed by the harness (bytes before/after, reachable pointer sets disjoint) in addition to the AST facts",
 ]
 
+ST_TB = TB_COMMON + [
+    "interleavings are at the granularity of lock regions: every cs.Lock()...cs.Unlock() region and the region cs.Lock()...cond.Wait() (which releases the mutex atomically) is one atomic step of the model; sync.Mutex / sync.Cond (Mesa semantics, Broadcast wakes every waiter) are modelled, not verified; memory-model effects inside a region are C10's business",
+    "the harness realises interleavings at call granularity (a RecvMsg/Header is started, observed to block or return, then other calls are made); blocking is observed with a 15 ms / 3 s wait, decided by the harness's own record of creation / failure / cancellation",
+    "one sender thread (gRPC forbids concurrent SendMsg on a stream), up to three receiver threads",
+]
+
 PROPS = {
+    "C12": {"harnesses": ["st"], "lake_targets": ["GcpVerif"],
+            "theorems": [("GcpVerif.Proofs.Stream", "GcpVerif.Stream." + n) for n in
+                         ["run_inv", "create_at_most_once", "recv_progress", "delegation_after_creation",
+                          "first_message_visible", "no_second_attempt", "recv_returns", "inv_step"]],
+            "leanchecker": ["GcpVerif.Proofs.Stream"],
+            "trusted_base": ST_TB, "assumptions": []},
     "C17": {"harnesses": ["cfg"], "lake_targets": ["GcpVerif"],
             "theorems": [("GcpVerif.Proofs.Config", "GcpVerif.Config." + n) for n in
                          ["defaults_tie", "effective_defaults", "effective_absent_pool", "effective_no_config", "effective_methods",
